@@ -1,4 +1,61 @@
-claim("C03", "property-based testing (proptest over a choice tape) against a union-find/exact-rational reference model of every table entry",
-      "Generated-input search: thousands of arbitrary multigraphs per run, every one of the 2^E subsets of every accepted graph compared with an independent reference (cyclomatic number, spanning flag, exact omega) plus the reported dod/dimension/edge data. Exploration is the right level: the domain is infinite, the oracle is exact, failures shrink to a minimal graph.",
-      "Trusts the reference model (written from the property statement), num::BigRational, serde_json as the window onto the table. Graphs with E<=7 (quick) / E<=10 (thorough), V<=6.",
-      "DESIGN.md §5 C03")
+PBT = "property-based testing (proptest TestRunner over a choice tape, 16 shards, shrinking to a replay file)"
+claim("C01", PBT + " of a statistical oracle: Monte Carlo means against closed-form integrals and the universal identity E[jac*h*prod A^nu]=1, two-stage z-test; plus a deterministic metamorphic scaling relation",
+      "Generated graphs/kinematics/routings; each case is a 4e5-point (thorough 4e6) Monte Carlo run whose mean must equal an independently known value. Exploration with a statistical decision rule is the only way to attack an aggregate statement about the whole hypercube; every factor of the composition is pinned deterministically by C02-C14.",
+      "Statistical: false-alarm < 1e-10 per case, power ~0.5-1 % relative bias; D*L<=8 and all omega>=0.3 to keep variances finite; closed forms re-derived at design time.", "DESIGN.md §5 C01")
+claim("C02", PBT + " against brute-force Symanzik constants (N_T, c_min, C_sum) with corner-heavy structured points",
+      "For thousands of generated graphs and corner/rare-sector points the returned u, v and jacobian/normalisation are checked against bounds computed by enumerating spanning trees and 2-forests. Exploration with a sound oracle; bounds hold with equality at corners so any mis-tracked tropical factor shows up.",
+      "Feynman parameters observed through the crate's debug log (itself checked by C07); tolerance condition-scaled; domain kappa*c_V<=1e8 as in the property.", "DESIGN.md §5 C02")
+claim("C03", PBT + " against a union-find / exact-rational reference model of every table entry",
+      "Arbitrary multigraphs; every one of the 2^E subsets of every accepted graph compared with an independent reference (cyclomatic number, spanning flag, exact omega) plus reported dod/dimension/edge data.",
+      "Trusts the reference model (written from the property statement), num::BigRational, serde_json as the window onto the table. E<=7 (quick) / E<=10 (thorough).", "DESIGN.md §5 C03")
+claim("C04", PBT + " with exact rational arithmetic: local recursion on the table's values, recomputation from omegas, E!-ordering sum, own Gamma for the normalisation",
+      "Every subset of every accepted generated graph satisfies the J recursion exactly (rationals), J(full) equals the ordering sum, probabilities sum to one, cached_factor equals the closed formula.",
+      "Own ln Gamma accurate to 1e-14; E<=7 for the ordering sum (8 in thorough).", "DESIGN.md §5 C04")
+claim("C05", PBT + " with boundary-pushed weights, exact rational omega oracle for the iff, catch_unwind for panics, repeated and cross-process builds for determinism",
+      "Accept/reject decision of build_sampler compared with the exact classification for tens of thousands of graphs incl. ones whose deciding omega sits at +-1/64, +-1e-6; J finite/positive on acceptance; no panic; byte-identical tables across builds and processes.",
+      "Subsets with |omega|<=1e-9 excluded from the iff as the property says; hash-seed variation sampled, not enumerated.", "DESIGN.md §5 C05")
+claim("C06", PBT + " with a boundary-heavy generator for the edge-choice coordinates and an exact-rational cumulative-sum oracle applied at every step of the walk",
+      "Every removal step of every generated walk is compared with the exact inverse-CDF choice; u within ulps of boundaries and of 1, 0, subnormals are generated on purpose; any panic is a violation. Found the genuine u=1-2^-53 panic (fixed).",
+      "Removal order observed through the debug log with xi=2^-omega; 64*E*eps neighbourhood accepts both neighbours; reference J by own recursion.", "DESIGN.md §5 C06")
+claim("C07", PBT + " against an oracle-side simulation of the sector walk and brute-force tropical polynomials",
+      "Logged unrescaled parameters equal the predicted products xi^(1/omega); logged tropical values equal the largest monomials; rescaling is common and normalises U_tr^(D/2)V_tr^dod to 1.",
+      "Debug log as observation channel; points within 1e-9 of a boundary excluded as the property says; condition-scaled tolerance of the power function.", "DESIGN.md §5 C07")
+claim("C08", PBT + " against exact rational determinant and brute-force spanning-tree sum, with unimodular scrambling of the cycle basis",
+      "Metadata L matrix checked entrywise, u checked against two independent oracles within 1000*eps*kappa for thousands of graphs x routings x points.",
+      "kappa computed exactly; parameters from the debug log (checked by C07).", "DESIGN.md §5 C08")
+claim("C09", PBT + " against brute-force spanning 2-forests, plus a metamorphic relation between two generated routings of the same kinematics",
+      "v equals F/U from an independent enumeration; u, v, jacobian agree between two routings (different tree, basis change, flips, offsets).",
+      "Tolerance 1000*eps*kappa*c_V, both computed exactly.", "DESIGN.md §5 C09")
+claim("C10", PBT + " with the momentum-map identities evaluated in exact rational arithmetic on the returned numbers",
+      "Scalar identity, vector identity with the metadata Cholesky factor, factor product = L, shift = L^-1 u, for thousands of generated samples incl. Box-Muller/lambda tails.",
+      "Domain restricted to points whose gamma quantile is >= 1e-13 (where C12 guarantees lambda) and to the oracle's magnitude range.", "DESIGN.md §5 C10")
+claim("C11", PBT + " against an independent evaluation of the whole weight formula at the unrescaled parameters",
+      "jacobian equals cached_factor*u^(-D/2)*v^(-dod) and equals I_tr Gamma(dod)/prod Gamma pi^(DL/2)(U_tr/U)^(D/2)(V_tr/V)^dod computed from own J, own Gamma and brute-force polynomials: invariance under the rescaling.",
+      "Own ln Gamma; debug log for the unrescaled parameters.", "DESIGN.md §5 C11")
+claim("C12", PBT + " with branch-aware generators against own incomplete-gamma functions; link to sampling by bit-equality; libFuzzer campaign in the thorough tier",
+      "Millions of (a,p) incl. every reachable starting-value branch, branch thresholds, p within 2^-53 of 0 and 1, a within 1e-8 of 1: result is Err or finite>0, accurate to 2e-8 where required, monotone, never panics; the lambda of a sample is exactly this function. Found two genuine defects (fixed).",
+      "Own P/Q accurate to ~1e-13; required domain p>=P(a,1e-13).", "DESIGN.md §5 C12")
+claim("C13", PBT + " against a reference Box-Muller on the designated coordinates",
+      "Every Gaussian component of every generated sample equals the transform of its own coordinate pair (layout, cos/sin order, odd D*L).",
+      "Tolerance 2e-14*r for the rounding of 2*pi*b.", "DESIGN.md §5 C13")
+claim("C14", PBT + " with dynamic dependency (taint) tracking through a user-supplied scalar type, plus value-level perturbations",
+      "Per execution: exact dependency sets of L, u, v, jacobian, lambda, each Gaussian component; coverage of all coordinates; trailing coordinates untouched; short points rejected.",
+      "Dependency sets are syntactic upper bounds; complemented by perturbation runs.", "DESIGN.md §5 C14")
+claim("C15", PBT + " against exact rational linear algebra (determinant, inverse, factor products)",
+      "SPD matrices n=1..8 of six structural classes up to cond 1e10: factor shape, R^T R, R^-1 R, determinant, inverse within 1000*eps*cond.",
+      "Exact Gauss-Jordan over BigRational as reference.", "DESIGN.md §5 C15")
+claim("C16", PBT + " over all symmetric matrices and over samples with the stability test enabled; exact recomputation of the stability residual",
+      "Ok never carries a zero determinant; exactly singular (exact-arithmetic) matrices give ZeroDet; with Some(tol) an Ok result is NaN-free and its exact L_2,1 residual is <= tol (+rounding slack), both for decompose_for_tropical and through samples. Found the genuine NaN-passes-the-test defect (fixed).",
+      "Rounding slack of the f64 residual evaluation is added to tol.", "DESIGN.md §5 C16")
+claim("C17", "model-based / stateful " + PBT + ": histories of sample / rng-sample / clone / serde-copy / thread-burst operations checked against a first-observation model; cross-process comparison",
+      "Bit-equality of every observation with the model across histories, flag combinations, 2-8 concurrent threads and a fresh process; rng equivalence and exact draw count.",
+      "Thread schedules sampled, not enumerated; absence of interior mutability reported by a source scan (supplementary).", "DESIGN.md §5 C17")
+claim("C18", PBT + " of a round-trip oracle in two self-describing formats",
+      "Restored samplers re-serialise byte-identically, report the same quantities and sample bit-identically (incl. metadata) on 13 generated points each.",
+      "serde_json text (float_roundtrip) and its value tree as formats; sampling equality on generated points, not all points.", "DESIGN.md §5 C18")
+claim("C19", PBT + " with two user scalar types: taint tracking of every to_f64/from_f64, and a double-double type whose outputs are checked with exact rationals at 1e-26*kappa",
+      "No value depending on anything but the gamma coordinate is ever narrowed; a 106-bit scalar yields 1e-31-accurate u, inverse, momenta, routing-independent v and jacobian.",
+      "Double-double library validated at design time; tolerance 1e-26*kappa.", "DESIGN.md §5 C19")
+claim("C20", PBT + " against plain-array IEEE reference, compared by bit pattern",
+      "Hundreds of thousands of vectors of dimension 1..8 with components from all finite f64; every Vector operation and every f64 MomTropFloat method.",
+      "Host IEEE arithmetic as reference for single operations.", "DESIGN.md §5 C20")
